@@ -211,6 +211,11 @@ class Minimiser:
                 wc = scf.fields["__Wcost"]
                 goals.append(("converged => W unchanged since the last energy evaluation (stored Y, n, energies belong to W)",
                               w.to_val(scf.fields["W"]) == w.to_val(wc)))
+                if self.gradtol:
+                    # conjugate-gradient schemes with a gradient tolerance: the path on which convergence is reported has taken the branch
+                    # `(sum(norm_g) < gradtol).all()` of the real check_convergence (an energy-only decision is not enough)
+                    tested = any(("meth.all" in str(c) or "all/" in str(c)) and "gradtol" in str(c) and not z3.is_not(c) for c in r.path.pc)
+                    goals.append(("converged with a gradient tolerance set => the gradient norms were below it", z3.BoolVal(bool(tested))))
             for label, g in goals:
                 v, model = check_valid(w, r.path.pc, g)
                 nobl += 1
@@ -243,6 +248,28 @@ class Minimiser:
         eminus.config.verbose = "critical"
         name = wit["minimiser"]
         findings = []
+        if name == "auto" and wit.get("gradtol"):
+            # scripted energies that force the steepest-descent fall-back of `auto` and then change by less than etol, with a gradient tolerance that
+            # cannot be met (1e-14) at a random start: convergence must not be reported
+            from eminus.dft import guess_random
+
+            at = Atoms("He", [[0.0, 0.0, 0.0]], ecut=3, a=7, unrestricted=True)
+            scf = SCF(at, etol=1e-3, gradtol=1e-14, verbose="critical")
+            scf.W = guess_random(scf)
+            script = iter([-1.0, -0.9, -1.0 + 1e-9, -0.95, -1.0 + 2e-9, -0.97, -1.0 + 3e-9, -2.0, -2.0, -2.0, -2.0, -2.0])
+
+            def scripted(s_, step):
+                s_._precompute()
+                return next(script)
+
+            scf.is_converged = False
+            try:
+                M.auto(scf, 4, cost=scripted)
+            except StopIteration:
+                pass
+            if scf.is_converged:
+                findings.append(dict(kind="gradient tolerance ignored", scheme="auto (steepest-descent fall-back step)", etol=1e-3, gradtol=1e-14,
+                                     note="convergence reported after an energy change of 1e-9 although no gradient norm can be below 1e-14"))
         caps = sorted({int(wit.get("Nit", 3)), 1, 2, 3, 6, 40})
         for etol, gradtol in ((1.0, None), (1e-1, None), (1e-3, None), (1e-9, 1e-2 if wit.get("gradtol") else None)):
             for Nit in caps:
@@ -287,6 +314,11 @@ class Minimiser:
                 M.auto(scf, Nit, cost=rising)
                 if count[0] > Nit:
                     findings.append(dict(kind="evaluations", Nit=Nit, evaluations=count[0], note="cost reports a rising energy: every iteration takes the sd fall-back"))
+        # only the findings that concern the clause of this obligation count as its replay (the double evaluation of `auto` is a finding of the
+        # `evaluations` clause, not of the convergence clauses)
+        mine = {"evaluations": ("evaluations",), "convergence": ("flag", "coherence", "gradient tolerance ignored")}.get(self.clause)
+        if mine:
+            findings = [f for f in findings if f["kind"] in mine]
         return bool(findings), dict(check="He, ecut=5, a=8: counting cost wrapper, caps " + str(caps), violations=findings[:6])
 
 
@@ -524,3 +556,116 @@ class SameMinimum:
 register(Obligation(name="C14.minimisers.same_minimum_restart_local_minimum", prop=PROP, engine="B", bounded=True, run=SameMinimum(), budget={"quick": 600, "thorough": 1200},
                     functions=["eminus.minimizer:sd", "eminus.minimizer:lm", "eminus.minimizer:pclm", "eminus.minimizer:cg", "eminus.minimizer:pccg", "eminus.minimizer:auto", "eminus.scf:SCF.run"],
                     doc="BOUNDED: all schemes / cg forms reach the same minimum; a restart from the converged state converges immediately; the minimum is local (He, triclinic cell)"))
+
+
+# ------------------------------------------------------------------------------------------------
+# the unpreconditioned wrappers (lm, cg) run the same scheme on the SAME cost / gradient / condition
+# ------------------------------------------------------------------------------------------------
+
+
+class SchemeWrapper:
+    """lm = pclm(..., precondition=False), cg = pccg(..., precondition=False) in eminus.minimizer and eminus.band_minimizer: symbolic execution of
+    the wrapper with the wrapped scheme as an uninterpreted callee that records its bound arguments: every argument (cost, gradient, condition,
+    step size, cg form, coefficients) arrives in its own slot and preconditioning is switched off; the wrapper returns what the scheme returns."""
+
+    def __init__(self, module, wrapper, target):
+        self.module, self.wrapper, self.target = module, wrapper, target
+
+    def __call__(self, ob, tier, seed):
+        import ast
+        import inspect
+
+        try:
+            w = World()
+            mod = w.module(self.module)
+            fn = mod.funcs[self.wrapper]
+            tgt = mod.funcs[self.target]
+            wnames = [a.arg for a in fn.node.args.args]
+            tnames = [a.arg for a in tgt.node.args.args]
+            vals = {n: named(w, f"arg:{n}", "val") for n in wnames}
+            seen = {}
+            ret = named(w, "out:costs", "val")
+
+            def callee(it, a, k):
+                bound = dict(zip(tnames, a))
+                bound.update(k)
+                seen.update(bound)
+                return ret
+
+            ext = dict(NUM_EXT)
+            ext[f"func:{self.target}"] = callee
+
+            def run(it):
+                f = it.lookup_global(self.wrapper, mod)
+                return it.call(f, [vals[n] for n in wnames], {}), None
+
+            res = explore(w, run, assumptions=[], ext=ext, max_paths=4)
+            if len(res) != 1 or res[0].outcome != "return":
+                raise OutsideSubset(f"{self.wrapper}: {[(r.outcome, str(r.value)[:60]) for r in res]}")
+            bad = [n for n in wnames if n in tnames and seen.get(n) is not vals[n]]
+            pre = seen.get("precondition")
+            if pre is not False:
+                bad.append(f"precondition={pre!r}")
+            if res[0].value is not ret:
+                bad.append("return value")
+            if bad:
+                wit = dict(wrapper=f"{self.module}:{self.wrapper}", wrong=bad)
+                ok, info = self.replay(wit)
+                return Result(REFUTED if ok else UNDECIDED, backend="symbolic-execution", witness=wit, replayed=ok, replay_info=info,
+                              detail=f"{self.module}.{self.wrapper} does not hand {bad} on to {self.target}")
+            return Result(DISCHARGED, backend="symbolic-execution", stats=dict(forwarded=[n for n in wnames if n in tnames]))
+        except (OutsideSubset, PyRaise, TypeError, AttributeError, KeyError, ValueError, IndexError) as e:
+            ok, info = self.replay({})
+            if ok:
+                return Result(REFUTED, backend="native-contract-evaluation", witness=dict(wrapper=self.wrapper), replayed=True, replay_info=info,
+                              detail=f"{self.wrapper}: wrapped scheme does not receive the wrapper's arguments ({type(e).__name__}: {e})")
+            return Result(UNDECIDED, backend="engine-Z", detail=f"outside subset: {type(e).__name__}: {e}")
+
+    def replay(self, wit):
+        """Native: the wrapper is called with recording cost / gradient / condition callables; the wrapped scheme has to use exactly those."""
+        import importlib
+
+        import eminus
+        from eminus import SCF, Atoms
+        from eminus.dft import guess_random
+
+        eminus.config.backend = "numpy"
+        eminus.config.verbose = "critical"
+        M = importlib.import_module(self.module)
+        at = Atoms("He", [[0.0, 0.0, 0.0]], ecut=2, a=6)
+        scf = SCF(at, opt={"sd": 1}, verbose="critical")
+        scf.run()
+        used = dict(cost=0, grad=0, condition=0)
+        band = self.module.endswith("band_minimizer")
+        base_cost = M.scf_step_unocc if band else M.scf_step
+        base_grad = M.get_grad_unocc if band else M.get_grad
+
+        def cost(*a, **k):
+            used["cost"] += 1
+            return base_cost(*a, **k)
+
+        def grad(*a, **k):
+            used["grad"] += 1
+            return base_grad(*a, **k)
+
+        def condition(*a, **k):
+            used["condition"] += 1
+            return M.check_convergence(*a, **k)
+
+        try:
+            if band:
+                Z = guess_random(scf, Nstate=2)
+                getattr(M, self.wrapper)(scf, Z, 3, cost=cost, grad=grad, condition=condition)
+            else:
+                getattr(M, self.wrapper)(scf, 3, cost=cost, grad=grad, condition=condition)
+        except Exception as e:  # noqa: BLE001
+            return True, dict(raised=f"{type(e).__name__}: {e}", calls=used)
+        bad = [k for k, v in used.items() if v == 0]
+        return bool(bad), dict(check=f"{self.module}.{self.wrapper} with recording cost / gradient / condition callables", calls=used, never_called=bad)
+
+
+for _mod in ("eminus.minimizer", "eminus.band_minimizer"):
+    for _wr, _tg in (("lm", "pclm"), ("cg", "pccg")):
+        register(Obligation(name=f"C14.{_mod.split('.')[1]}.{_wr}.wraps_{_tg}_unpreconditioned", prop=PROP, engine="Z", functions=[f"{_mod}:{_wr}", f"{_mod}:{_tg}"],
+                            run=SchemeWrapper(_mod, _wr, _tg), assumes=("engineZ",),
+                            doc=f"{_mod}.{_wr} = {_tg} with preconditioning switched off and every other argument (cost, gradient, condition, step, cg form) handed on unchanged"))
